@@ -1,9 +1,11 @@
 """Shared helpers of the `queue` component (C19): loading the tree under test, a recording
 un-networked transport, Python value <-> driver JSON conversion.  Not a component (no PROPERTIES line)."""
 import contextlib
+import gc
 import importlib
 import os
 import sys
+import threading
 
 
 def load(ctx):
@@ -45,6 +47,56 @@ def real_runtime(so, seed=None):
         yield
     finally:
         so.monotonicTime, tr.monotonicTime, tc.monotonicTime, so.random = saved
+
+
+def fd_count():
+    """open descriptors of this process (after a collection: sockets / files of dropped objects are closed by it)"""
+    gc.collect()
+    try:
+        return len(os.listdir("/proc/self/fd"))
+    except OSError:
+        return -1
+
+
+def close_node(o):
+    """destroy a SyncObj made by the harness AND close what `destroy` leaves open: `_doDestroy` closes the transport
+    and the journal, not the two ends of the PipeNotifier's pipe (`appendEntriesUseBatch=False`).  The tick thread of an
+    autoTick node is joined first (never close a descriptor under a live poller)."""
+    th = o.__dict__.get("_SyncObj__thread")
+    try:
+        o.destroy()
+    except Exception:   # noqa
+        pass
+    if th is not None and th is not threading.current_thread():
+        th.join(10)
+        if th.is_alive():
+            return False
+    pn = o.__dict__.get("_SyncObj__pipeNotifier")
+    if pn is not None:
+        for name in ("_PipeNotifier__pipeR", "_PipeNotifier__pipeW"):
+            fd = pn.__dict__.get(name)
+            if isinstance(fd, int):
+                try:
+                    o._poller.unsubscribe(fd)
+                except Exception:   # noqa
+                    pass
+                try:
+                    os.close(fd)
+                except OSError:
+                    pass
+                pn.__dict__[name] = -1
+    return True
+
+
+def fd_audit(res, before, slack=20):
+    """record the descriptor count before / after a component run; a harness that leaks descriptors breaks later
+    components of the same process (select() fails beyond 1024), so a leak makes the run inconclusive"""
+    after = fd_count()
+    cov = res.setdefault("coverage", {})
+    cov["fds_before"], cov["fds_after"] = before, after
+    if before >= 0 and after > before + slack and not res.get("inconclusive") and not res.get("violations"):
+        res["inconclusive"] = "descriptor leak in the harness: %d open before the run, %d after" % (before, after)
+    return res
 
 
 def make_transport_class(so):
